@@ -306,4 +306,68 @@ theorem mapE_congr {α β : Type} (f g : α → Except Err β) : ∀ (xs : List 
     simp only [mapE]
     rw [h x List.mem_cons_self, ih (fun y hy => h y (List.mem_cons_of_mem _ hy))]
 
+/-! ### the scan drivers through `parallelise` -/
+
+theorem seqScanCache_nocache (cf : Bool) (w : Worker) (cell : Nat) :
+    ∀ (rows : List (Label × Row)) (h : Heap),
+      seqScanCache cf w h cell none rows = (seqScanWith cf w h cell rows, none) := by
+  intro rows
+  induction rows with
+  | nil => intro h; rfl
+  | cons lr rest ih =>
+    intro h
+    unfold seqScanCache seqScanWith
+    simp only [Option.bind]
+    cases rowTask cf w h cell lr.2 with
+    | error e => rfl
+    | ok r =>
+      obtain ⟨h1, s⟩ := r
+      simp only
+      rw [ih h1]
+      cases seqScanWith cf w h1 cell rest with
+      | error e => rfl
+      | ok r2 => rfl
+
+theorem specRow_none_eq {α β : Type} (fn : α → Except Err β) (lr : Label × α) :
+    specRow fn none lr = match fn lr.2 with | .error e => Except.error e | .ok p => .ok (lr.1, p) := by
+  unfold specRow
+  simp only [Option.bind]
+  cases fn lr.2 <;> rfl
+
+theorem collect_mapE (f : Row → Except Err Pickled) :
+    ∀ (xs : List (Label × Row)) (h : Heap),
+      collect h (xs.map fun lr => (lr.1, f lr.2)) =
+        match mapE (specRow f none) xs with
+        | .error e => .error e
+        | .ok ps => .ok (placeAll h ps) := by
+  intro xs
+  induction xs with
+  | nil => intro h; simp [collect, placeAll, placeFrom, mapE]
+  | cons lr rest ih =>
+    intro h
+    simp only [List.map_cons, collect, mapE]
+    rw [specRow_none_eq]
+    cases f lr.2 with
+    | error e => rfl
+    | ok p =>
+      simp only
+      rw [ih (h ++ [p.content])]
+      cases mapE (specRow f none) rest with
+      | error e => rfl
+      | ok ps => simp [placeAll, placeFrom]
+
+theorem scanPar_nocache (cf : Bool) (s : Sched) (hn : 0 < s.n) (hT : s.timedOut = []) (w : Worker) (h : Heap) (cell : Nat)
+    (rows : List (Label × Row)) :
+    (scanPar cf s w h cell rows none).1 = parScanWith cf s.assign s.n w h cell rows := by
+  unfold scanPar parScanWith
+  cases h.read cell with
+  | error e => rfl
+  | ok c =>
+    simp only
+    rw [schedMap_eq_map s.assign s.n hn, collect_mapE (childTask cf w c) rows h]
+    unfold parallelise
+    simp only [Option.isSome_none, Bool.false_and, Bool.false_eq_true, if_false, if_true]
+    rw [pool_spec s hn, hT, keepFrom_nil]
+    cases mapE (specRow (childTask cf w c) none) rows <;> rfl
+
 end Mxl.C09
